@@ -85,6 +85,15 @@ def regenerate():
                          f"(* translator failed: {status['T-blocks']} *)\n"
                          "Definition translator_failed : False := I.\n")
     try:
+        from translator import initvars as T7
+        write_if_changed(os.path.join(GEN, "InitVars.v"), T7.translate(REPO))
+        status["T-initvars"] = None
+    except Exception as e:
+        status["T-initvars"] = f"{type(e).__name__}: {e}"
+        write_if_changed(os.path.join(GEN, "InitVars.v"),
+                         f"(* translator failed: {status['T-initvars']} *)\n"
+                         "Definition translator_failed : False := I.\n")
+    try:
         from translator import tables as T34
         text = T34.translate(REPO)
         write_if_changed(os.path.join(GEN, "Tables.v"), text)
